@@ -97,6 +97,12 @@ pub fn all_entry_points(lang_code: &str, text: &str, th: f64) -> Result<usize, S
             return Err(format!("text2digits validated a text without any word as {:?}", d));
         }
     }
+    // ordinary words only: not a number
+    if !text.is_empty() && text.split_whitespace().all(|w| crate::gen::vocab_of(lang_code).fillers.iter().any(|f| f.eq_ignore_ascii_case(w))) {
+        if let Ok(d) = &v {
+            return Err(format!("text2digits validated ordinary words {:?} as {:?}", text, d));
+        }
+    }
     if let Ok(d) = &v {
         if d.is_empty() {
             return Err("text2digits returned Ok with an empty digit string".into());
